@@ -107,6 +107,17 @@ def coqc_file(relpath, timeout=600):
     return p.returncode == 0, p.stdout
 
 
+def coqchk(props_relpath, timeout=1500):
+    """Re-check the property file and everything it depends on with the independent checker."""
+    modname = "SkV." + props_relpath[:-2].replace("/", ".")
+    p = subprocess.run(["timeout", str(timeout), "coqchk", "-silent", "-o", "-Q", ".", "SkV", modname],
+                       cwd=COQB, stdout=subprocess.PIPE, stderr=subprocess.STDOUT, text=True)
+    out = p.stdout
+    m = re.search(r"\* Axioms:(.*?)\n\s*\n\* Constants", out, re.S)
+    axioms = re.sub(r"\s+", " ", m.group(1)).strip() if m else "?"
+    return p.returncode == 0, axioms, out[-1500:]
+
+
 THEOREM_RE = re.compile(r"^\s*(?:Theorem|Lemma|Corollary|Example)\s+([A-Za-z0-9_']+)", re.M)
 
 
